@@ -1,11 +1,14 @@
 //verif:dest internal/verifh/c01/c01f.go
 //verif:replace@C01f fmt.Print = c01fPrint
 //verif:replace@C01f fmt.Println = c01fPrintln
+//verif:replace@C01f (*os.File).Write = c01fFileWrite
+//verif:replace@C01f (*os.File).WriteString = c01fFileWriteString
 
 package c01
 
 import (
 	"context"
+	"os"
 
 	chandlers "github.com/mimecast/dtail/internal/clients/handlers"
 	"github.com/mimecast/dtail/internal/config"
@@ -28,6 +31,12 @@ func c01fPrint(a ...interface{}) (int, error) {
 	}
 	return n, nil
 }
+// whatever is written to a standard stream reaches the terminal as well
+func c01fFileWrite(f *os.File, b []byte) (int, error) {
+	c01fTerminal = append(c01fTerminal, b...)
+	return len(b), nil
+}
+func c01fFileWriteString(f *os.File, s string) (int, error) { return c01fFileWrite(f, []byte(s)) }
 func c01fPrintln(a ...interface{}) (int, error) {
 	n, _ := c01fPrint(a...)
 	c01fTerminal = append(c01fTerminal, '\n')
@@ -47,7 +56,7 @@ func VerifC01fTerminal(n, P int) {
 	}
 	config.Server.MaxLineLength = 64
 	c01fTerminal = nil
-	content := []byte(verifrt.StringIn("c", n, "ab \n\r\t"))
+	content := []byte(verifrt.StringIn("c", n, "ab% \n\r\t"))
 	path := fs.VerifProvide(content)
 	sh := shandlers.VerifNewServerHandler(true, true, true, 2, 2)
 	ch := chandlers.NewClientHandler("srv")
